@@ -5,8 +5,8 @@ from .c01 import random_history, fix_disagreements
 
 MODULES = ['DsdVerif.Props.C15']
 GEN_FILES = []
-THEOREM_NAMES = ['frame_dom', 'frame_cplx', 'withClass_frame', 'failed_request_no_trace']
-THEOREMS = []
+THEOREM_NAMES = ['withClass_frame', 'mkDom_frame', 'mkCplx_frame', 'failed_request_no_trace', 'refused_adds_no_edges']
+THEOREMS = ['Dsd.C05.' + t for t in THEOREM_NAMES]
 ASSUMPTIONS = [
     'every class of the metaclass has its own pair of weak dictionaries (Singleton.__init__); the model keeps one registry per class '
     'index (Model/World.lean) and the inherited ID counter semantics (own attribute after the first increment)',
@@ -141,6 +141,12 @@ def run(res, proof):
                     calls[kind]()
                     res.violation('failing-ctor:no-exception', {'kind': kind, 'when': when}, 'returned', 'the user exception')
                 except Boom as e:
+                    # while the exception (and with it the half-built object) is still alive: the name was never bound, and
+                    # no canonical form is registered unless the library constructor itself stored rotation keys (complexes)
+                    inside = (sorted(cls._instanceNames.keys()), len(cls._instanceCanon))
+                    if inside[0] or (inside[1] and not (kind == 'cplx' and when == 'after')):
+                        res.violation('failing-ctor:registered-before-init', {'kind': kind, 'when': when, 'depth': depth},
+                                      'inside the handler the registry holds %r' % (inside,), 'name and canonical form remain free')
                     e = None
                 except Exception as e:
                     res.violation('failing-ctor:other-exception:' + type(e).__name__, {'kind': kind, 'when': when}, type(e).__name__, 'the user exception')
